@@ -10,6 +10,7 @@ import ast
 from sa.astutil import (call_name, calls_in, dotted, norm, walk_no_nested, try_fold,
                         names_in, last_attr, call_arg, guards_of, fact_texts, str_consts)
 from sa.loader import AnalysisError
+from sa.canon import canon
 from sa.symexpand import expanded_at, expanded_returns, Expand, substitute
 from sa.tables import module_constants
 from checks import common
@@ -175,22 +176,23 @@ def run(ctx):
 
     # ------------------------------------------------------------------ R3
     prof = mc.func('MolecularContainer.get_folding_profile')
-    appends = [c for c in calls_in(prof, nested=False) if last_attr(c) == 'append'
-               and norm(c.func.value) == 'profile']
-    ph_var = None
     loops = [n for n in walk_no_nested(prof) if isinstance(n, ast.For)
              and isinstance(n.iter, ast.Call) and call_name(n.iter) == gfn.name]
-    if loops and isinstance(loops[0].target, ast.Name):
-        ph_var = loops[0].target.id
+    # the list that collects one 2-tuple per grid point
+    appends = [c for c in (calls_in(loops[0]) if loops else []) if last_attr(c) == 'append'
+               and isinstance(c.func.value, ast.Name) and c.args
+               and isinstance(c.args[0], ast.Tuple) and len(c.args[0].elts) == 2]
+    pvar = appends[0].func.value.id if appends else None
     pos_ok = False
-    if len(appends) == 1 and isinstance(appends[0].args[0], ast.Tuple) \
-            and len(appends[0].args[0].elts) == 2 and ph_var:
-        e0, e1 = appends[0].args[0].elts
-        e1_def = [s for s in walk_no_nested(loops[0]) if isinstance(s, ast.Assign)
-                  and norm(s.targets[0]) == norm(e1)]
-        pos_ok = norm(e0) == ph_var and len(e1_def) == 1 and \
-            'calculate_folding_energy' in norm(e1_def[0].value) and \
-            ('ph=%s' % ph_var) in norm(e1_def[0].value).replace(' ', '')
+    if len(appends) == 1 and loops and isinstance(loops[0].target, ast.Name):
+        pcan = canon(prof)
+        point = pcan.expr(appends[0].args[0])
+        grid_ph = norm(pcan.expr(ast.Name(id=loops[0].target.id, ctx=ast.Load()),
+                                 pcan.env_for(appends[0])))
+        e0, e1 = point.elts
+        pos_ok = norm(e0) == grid_ph and isinstance(e1, ast.Call) \
+            and last_attr(e1) == 'calculate_folding_energy' \
+            and [norm(k.value) for k in e1.keywords if k.arg == 'ph'] == [grid_ph]
         unguarded = not any(isinstance(n, (ast.If, ast.Continue, ast.Break))
                             for n in ast.walk(loops[0]))
         pos_ok = pos_ok and unguarded
@@ -205,13 +207,13 @@ def run(ctx):
         key_ok = isinstance(key, ast.Lambda) and isinstance(key.body, ast.Subscript) \
             and try_fold(key.body.slice) == 1
         args = [norm(a) for a in mins[0].args]
-        if args == ['profile']:
+        if args == [pvar]:
             min_ok = key_ok
         else:
             # fold form: for point in profile: opt = min(opt, point, key=...)
             loop = next((a for a in ast.walk(prof) if isinstance(a, ast.For)
                          and any(mins[0] is n for n in ast.walk(a))), None)
-            min_ok = key_ok and loop is not None and norm(loop.iter) == 'profile' \
+            min_ok = key_ok and loop is not None and norm(loop.iter) == pvar \
                 and isinstance(loop.target, ast.Name) and loop.target.id in args \
                 and not any(isinstance(n, (ast.If, ast.Continue, ast.Break)) for n in ast.walk(loop))
             if min_ok:
@@ -250,7 +252,7 @@ def run(ctx):
                         for s2 in walk_no_nested(prof):
                             if isinstance(s2, ast.Assign) and norm(s2.targets[0]) == nm:
                                 text += ' ' + norm(s2.value)
-            if name == 'profile':
+            if name == pvar:
                 roles[name] = 'profile'
             elif 'min(' in text and 'key=' in text:
                 roles[name] = 'optimum'
